@@ -479,8 +479,25 @@ def write_evidence(machine, tier, seed, results, errors, wall, extra,
 
 
 # ------------------------------------------------------------------ check
+def with_scratch(fn):
+    """Run fn() with a private scratch parent that is removed afterwards,
+    also when workers were killed and could not clean up themselves."""
+    base = engine.scratch_root()
+    parent = tempfile.mkdtemp(prefix='dstcheck-', dir=base)
+    os.environ['VERIF_SCRATCH'] = parent
+    try:
+        return fn()
+    finally:
+        os.environ['VERIF_SCRATCH'] = base
+        shutil.rmtree(parent, ignore_errors=True)
+
+
 def check(machine, tier, seed, log=print):
     """The quick / thorough check of one property.  Returns the exit code."""
+    return with_scratch(lambda: _check(machine, tier, seed, log))
+
+
+def _check(machine, tier, seed, log=print):
     t0 = time.time()
     plan = machine.plan(tier)
     nproc = int(os.environ.get('VERIF_PROCS', os.cpu_count() or 4))
@@ -641,6 +658,10 @@ def check(machine, tier, seed, log=print):
 
 
 def do_replay(machine, path, log=print):
+    return with_scratch(lambda: _do_replay(machine, path, log))
+
+
+def _do_replay(machine, path, log=print):
     doc = json.load(open(path))
     if doc['violation']['class'] == 'crash':
         if doc['case'].get('warmup'):
